@@ -158,13 +158,14 @@ theorem runRoot_for_range (P : Prims) (O : OutPrims) (cfg : Cfg) (fs : FS) (fuel
     (line l2 : Nat) (i : Bytes) (hi : i ≠ nmForloop) (a b : Int) (mods : LoopMods) (off lim : Option Int) (env : Env)
     (hoff : intModifier P mods.offset ⟨line, true⟩ ⟨env, {}⟩ = .ret (off, ⟨env, {}⟩))
     (hlim : intModifier P mods.limit ⟨line, true⟩ ⟨env, {}⟩ = .ret (lim, ⟨env, {}⟩))
-    (hsmall : b - a ≤ 100000) :
+    (hsmall : b - a ≤ cfg.budget) :
     runRoot P O cfg fs fuel [.loop line false i (.range (.lit (.int .int a)) (.lit (.int .int b))) mods [.obj l2 (.var i)] []] env =
       .ok ((selectItems mods.reversed off lim (rangeItems a b)).map decOf).flatten := by
   have hv : evaluate (mkCtx P O cfg fs fuel).P (⟨env, {}⟩ : RS).env (.range (.lit (.int .int a)) (.lit (.int .int b))) =
       .ok (.range a b) := by
     simp [evaluate, eval, GoVal.intOf, bind, Res.bind, GoVal.unwrap]
-  have hitems : loopItems (.range a b) = .ok (rangeItems a b) := by
+  have hitems : loopItems (mkCtx P O cfg fs fuel).cfg.budget (.range a b) = .ok (rangeItems a b) := by
+    show loopItems cfg.budget (.range a b) = _
     simp only [loopItems]
     rw [if_neg (by omega)]
   have hden := for_denotation (mkCtx P O cfg fs fuel) line i _ mods [.obj l2 (.var i)] [] ⟨env, {}⟩ (.range a b) (rangeItems a b)
